@@ -45,7 +45,7 @@ pub fn run_with_hook(cpu: &mut Cpu, tick: Box<dyn FnMut(&mut Cpu)>) -> RunEnd {
     verif_hooks::set_loop_tick(None);
     match r {
         Ok(Ok(())) => RunEnd::Ok,
-        Ok(Err(e)) => RunEnd::Err(format!("{}", e)),
+        Ok(Err(e)) => RunEnd::Err(format!("{:#}", e)),
         Err(_) => {
             let p = take_panic().unwrap_or_default();
             RunEnd::Panic(format!("{}:{}: {}", p.file, p.line, p.msg))
